@@ -6,6 +6,7 @@ import (
 	"math"
 	"os"
 	"path/filepath"
+	"strings"
 	"testing"
 
 	"github.com/ctessum/geom"
@@ -25,6 +26,7 @@ type Case struct {
 	Lat     float64         `json:"lat"`
 	Name    string          `json:"name,omitempty"`
 	Other   *projkit.Def    `json:"other,omitempty"` // equal: a second definition
+	Drop    string          `json:"drop,omitempty"`  // equal: PROJ.4 parameter (e.g. "+x_0") removed from the FIRST definition's text
 	ViaShp  bool            `json:"via_shp,omitempty"`
 	// proj4js's opinion on the same WKT (third opinion; embedded when node is available)
 	HaveJS bool        `json:"have_js,omitempty"`
@@ -96,7 +98,13 @@ func gen(t *rapid.T) Case {
 	case "equal":
 		c.D = projkit.GenDef(t, projkit.Opts{})
 		o := c.D
-		switch rapid.IntRange(0, 4).Draw(t, "relation") {
+		switch rapid.IntRange(0, 5).Draw(t, "relation") {
+		case 5: // the same text with one parameter left out on one side only (unset vs set)
+			c.Drop = rapid.SampledFrom([]string{"+x_0", "+y_0", "+lon_0", "+lat_0", "+lat_2", "+lat_ts", "+k_0", "+k", "+towgs84", "+units", "+pm", "+zone"}).Draw(t, "drop")
+			if o.X0 == 0 {
+				o.X0 = 1000
+				c.D.X0 = 1000
+			}
 		case 0: // identical
 		case 1: // towgs84 list of another length with the same leading terms
 			if o.DatumKind == "towgs" && len(o.Towgs) == 3 {
@@ -298,6 +306,16 @@ func runName(c Case) (v vkit.Verdict) {
 func runEqual(c Case) (v vkit.Verdict) {
 	v.Class("equal")
 	s1, s2 := c.D.String(), c.Other.String()
+	if c.Drop != "" {
+		var kept []string
+		for _, w := range strings.Fields(s1) {
+			if !strings.HasPrefix(w, c.Drop+"=") && w != c.Drop {
+				kept = append(kept, w)
+			}
+		}
+		s1 = strings.Join(kept, " ")
+		v.Class("parameter_dropped_on_one_side")
+	}
 	a, err := mustParse(s1)
 	if err != nil {
 		return v.Fail("%v", err)
@@ -366,7 +384,7 @@ func TestProp(t *testing.T) {
 			"in the declared unit. Oracle: transformers WGS84->CRS from both parses agree within 1 micrometre, CRS->WGS84 within 1e-11 deg, PROJ.4 parse -> WKT parse is the identity within 5 cm and without error (an inverse followed by a forward projection, limited by the 1e-10 rad stopping rule of the iterative inverses times the map scale; value not compared for datums with rotations, where the WGS84 step uses the small-angle inverse Helmert), " +
 			"no error/NaN; same text parsed twice is Equal(.,0) and NewTransform between them is nil; proj4js on the same WKT agrees within 0.1 mm (named datums only - proj4js 2.3.12 ignores TOWGS84 clauses in WKT - and when node is available); every tenth case reads the WKT through " +
 			"(*shp.Decoder).SR from a .prj file. Registered names vs their definitions: Equal both ways, nil transformer, same outputs. Equal/NewTransform on generated pairs (identical, towgs84 lists of " +
-			"different length, one parameter changed, unrelated): no panic, symmetric, NewTransform nil iff Equal, and Equal references map WGS84 positions identically. Non-trivial = non-metre unit, " +
+			"different length, one parameter changed, one parameter present on one side only, unrelated): no panic, symmetric, NewTransform nil iff Equal, and Equal references map WGS84 positions identically. Non-trivial = non-metre unit, " +
 			"TOWGS84 clause, OGC-dialect Albers; name cases; equal cases with different towgs84 lengths or Equal true. Distinct by case hash.",
 		Assumptions: []string{"WKT without blanks after commas (as GDAL and ESRI write .prj files)", "definitions that give no datum information are not compared across notations (PROJ.4 text: unknown datum; WKT: always names a datum)"},
 		Gen:         gen,
